@@ -11,6 +11,7 @@ extern _Bool g_md5file_exists, g_bk_opened_for_write, g_bk_closed;
 extern int g_newpath_kind, g_exit_status;
 extern struct FILE g_f_md5, g_f_bk;
 extern const void *g_bk_ptr; extern size_t g_bk_len, g_fwrite_ret;
+size_t g_bk_written;   /* ghost: number of bytes fwrite reported as completely written (size * return value) */
 int g_N;          /* ghost: index of the first character of the md5 line that is not a hex digit */
 _Bool g_fgets_ok; /* ghost: the md5 file could be read */
 #define EX_OK 0
@@ -42,8 +43,10 @@ __CPROVER_ensures(f == &g_f_bk ==> g_bk_closed)
 ;
 size_t fwrite_contract(const void *ptr, size_t size, size_t nmemb, struct FILE *f)
 __CPROVER_requires(f == &g_f_bk)
-__CPROVER_assigns(g_bk_ptr, g_bk_len, g_fwrite_ret)
+__CPROVER_assigns(g_bk_ptr, g_bk_len, g_fwrite_ret, g_bk_written)
 __CPROVER_ensures(g_bk_ptr == ptr && g_bk_len == size * nmemb && g_fwrite_ret == __CPROVER_return_value && __CPROVER_return_value <= nmemb)
+/* C standard 7.21.8.2: the return value is the number of elements successfully written (a short count on error) */
+__CPROVER_ensures(g_bk_written == size * __CPROVER_return_value)
 ;
 int memcmp_contract(const void *a, const void *b, size_t n)
 __CPROVER_requires(n == 32 && __CPROVER_r_ok(a, 32) && __CPROVER_r_ok(b, 32))
@@ -64,12 +67,12 @@ __CPROVER_requires(!g_bk_opened_for_write && !g_bk_closed && g_md5file_line[127]
  * hex digits overflow md5_str_in[33]; fewer than 32 make memcmp read uninitialised bytes of md5_str_in. */
 __CPROVER_requires((g_N == 0 || g_N == 32) && !is_hex(g_md5file_line[g_N]) && !g_fgets_ok)
 __CPROVER_requires((0 < g_N ==> is_hex(g_md5file_line[0])) && (1 < g_N ==> is_hex(g_md5file_line[1])) && (2 < g_N ==> is_hex(g_md5file_line[2])) && (3 < g_N ==> is_hex(g_md5file_line[3])) && (4 < g_N ==> is_hex(g_md5file_line[4])) && (5 < g_N ==> is_hex(g_md5file_line[5])) && (6 < g_N ==> is_hex(g_md5file_line[6])) && (7 < g_N ==> is_hex(g_md5file_line[7])) && (8 < g_N ==> is_hex(g_md5file_line[8])) && (9 < g_N ==> is_hex(g_md5file_line[9])) && (10 < g_N ==> is_hex(g_md5file_line[10])) && (11 < g_N ==> is_hex(g_md5file_line[11])) && (12 < g_N ==> is_hex(g_md5file_line[12])) && (13 < g_N ==> is_hex(g_md5file_line[13])) && (14 < g_N ==> is_hex(g_md5file_line[14])) && (15 < g_N ==> is_hex(g_md5file_line[15])) && (16 < g_N ==> is_hex(g_md5file_line[16])) && (17 < g_N ==> is_hex(g_md5file_line[17])) && (18 < g_N ==> is_hex(g_md5file_line[18])) && (19 < g_N ==> is_hex(g_md5file_line[19])) && (20 < g_N ==> is_hex(g_md5file_line[20])) && (21 < g_N ==> is_hex(g_md5file_line[21])) && (22 < g_N ==> is_hex(g_md5file_line[22])) && (23 < g_N ==> is_hex(g_md5file_line[23])) && (24 < g_N ==> is_hex(g_md5file_line[24])) && (25 < g_N ==> is_hex(g_md5file_line[25])) && (26 < g_N ==> is_hex(g_md5file_line[26])) && (27 < g_N ==> is_hex(g_md5file_line[27])) && (28 < g_N ==> is_hex(g_md5file_line[28])) && (29 < g_N ==> is_hex(g_md5file_line[29])) && (30 < g_N ==> is_hex(g_md5file_line[30])) && (31 < g_N ==> is_hex(g_md5file_line[31])))
-__CPROVER_assigns(g_fgets_ok, g_newpath_kind, g_bk_opened_for_write, g_bk_closed, g_bk_ptr, g_bk_len, g_fwrite_ret, g_exit_status, errno)
+__CPROVER_assigns(g_fgets_ok, g_newpath_kind, g_bk_opened_for_write, g_bk_closed, g_bk_ptr, g_bk_len, g_fwrite_ret, g_bk_written, g_exit_status, errno)
 /* md5 match => EX_OK and the backup is not touched */
 __CPROVER_ensures(MD5_MATCH ==> (__CPROVER_return_value == EX_OK && !g_bk_opened_for_write))
 /* mismatch (or no md5 file) => a normal return means the backup now holds exactly data */
 __CPROVER_ensures(!MD5_MATCH ==> g_bk_opened_for_write)
 __CPROVER_ensures((__CPROVER_return_value == EX_OK && g_bk_opened_for_write) ==>
-                  (g_bk_closed && g_bk_ptr == (const void*)V8_data(data) && g_bk_len == V8_size(data) && (g_fwrite_ret == 1 || V8_size(data) == 0)))
+                  (g_bk_closed && g_bk_ptr == (const void*)V8_data(data) && g_bk_len == V8_size(data) && (g_bk_written == V8_size(data) || V8_size(data) == 0)))
 __CPROVER_ensures(__CPROVER_return_value == EX_OK)
 ;
